@@ -15,11 +15,12 @@ Theorem C23_two_participants : forall sched,
 Proof. exact two_participants_safe. Qed.
 Print Assumptions C23_two_participants.
 
-(* THREE participants: the same invariants on all 25860 states of the exhaustive exploration (states are identified by
-   their encoding; the closure of that set is not re-proved structurally, so this is an exhaustive computation, weaker than
-   the theorem above) *)
-Theorem C23_three_participants_explored : forallb (fun s => p1 s && p3 s) (reach 3 [1; 2]) = true.
-Proof. vm_compute. reflexivity. Qed.
+(* THREE participants, every interleaving: the same, by a structural closure proof over the 25860 reachable states (the index
+   used to find a successor in the set is not trusted: the state found is compared structurally) *)
+Theorem C23_three_participants : forall sched,
+  p1 (run_sched [1; 2] (init 3) sched) = true /\ p3 (run_sched [1; 2] (init 3) sched) = true.
+Proof. exact three_participants_safe. Qed.
+Print Assumptions C23_three_participants.
 
 (* the address windows: in EVERY history of allocations and releases (any number of processes) no two processes hold
    the same window number, different numbers mean disjoint windows, and the 4096-byte blocks a process hands to its sync
